@@ -11,6 +11,16 @@ NA = {
 }
 
 CHECKS = {
+    'C10': dict(
+        category='other', design_ref='DESIGN.md §5 C10',
+        technique='constant-tree propagation (abstract interpretation of the loop-free macro expanders) compared with reference expansions; MIR loop-shape rules with SCCP for the fold',
+        text='The expansion of all/exists/exists_one/map(2,3)/filter is extracted for every admitted arity by abstract interpretation (finite trees, exact Vec sequences, all paths) and must equal the cel-go reference template; find_expander is enumerated over its whole decision partition; the evaluator\'s fold loop must have the cond -> exit-on-false -> bind item -> step -> bind accumulator shape, result after the loop, errors aborting, forward iteration; @not_strictly_false table. That the expanded operators compute the right values is C06/C08.',
+        note='reference table tables/reference/macros.json trusted; expanders must stay loop-free with modelled Vec operations (else fail closed)'),
+    'C11': dict(
+        category='other', design_ref='DESIGN.md §5 C11',
+        technique='provenance/dominance rules over Context accessors and the comprehension arm + rustc compile_fail witnesses (E0502, E0597)',
+        text='Lookup consults the own map first and the parent only on a miss; writes go only to the scope\'s own map; the comprehension evaluates range/init in the outer scope before the inner scope exists and cond/step/result in the inner scope with all writes targeting it; function and variable namespaces use disjoint fields; rustc rejects mutating a borrowed parent or outliving it. The sequence semantics follows from these for any sequence of operations.',
+        note='needs C05 O2 (no interior mutability in Context)'),
     'C13': dict(
         category='other', design_ref='DESIGN.md §5 C13',
         technique='interval + NaN-flag abstract interpretation over mandatory branch edges for float->int casts; API/table rules for literal visitors and conversion built-ins',
